@@ -2,6 +2,7 @@
 from .. import core
 
 CLAUSES = {
+    7: "Get handed out a connection that was unusable or had been idle for longer than the configured lifetime",
     1: "a pooled connection was handed out while another actor held it (or used / returned by an actor that does not hold it)",
     2: "a connection was handed out or used after it had been closed",
     3: "a connection was closed twice",
@@ -24,13 +25,16 @@ def run(ctx):
     if not ok:
         return
     core.check_theorems(ctx, "theories/Props/C19.v", "Props.C19")
-    ov = core.write_overlay(ctx, {"internal/smtpconn/pool/zz_verif_c19_test.go": "harness/c19/c19_test.go"},
-                            {"internal/smtpconn/pool": "pool"})
+    ov = core.write_overlay(ctx, {"internal/smtpconn/pool/zz_verif_c19_test.go": "harness/c19/c19_test.go",
+                                  "internal/target/remote/zz_verif_c19r_test.go": "harness/c19/c19_remote_test.go"},
+                            {"internal/smtpconn/pool": "pool", "internal/target/remote": "remote"})
     q = ctx.tier == "quick"
     core.generic_corr(ctx, overlay=ov, pkg="internal/smtpconn/pool", run="TestVerif_C19", n=300 if q else 6000,
                       corr_module="Conc.PoolCorr", clause_names=CLAUSES, name="sequential", shard=300)
     core.generic_corr(ctx, overlay=ov, pkg="internal/smtpconn/pool", run="TestVerif_C19Conc", n=25 if q else 400,
                       corr_module="Conc.PoolCorr", clause_names=CLAUSES, name="concurrent", shard=5)
+    core.generic_corr(ctx, overlay=ov, pkg="internal/target/remote", run="TestVerif_C19Remote", n=150 if q else 3000,
+                      corr_module="Conc.PoolCorr", clause_names=CLAUSES, name="remote", shard=300)
     ctx.coverage["rule"] = ("sequential: sequences of 2-15 operations over 3 keys, idle bound 0-2, key bound 1-3, connection and "
                             "bucket lifetimes never / always exceeded, unusable and old connections, one shutdown; concurrent: 2-8 "
                             "workers x 30-70 get/use/return-or-close iterations on 1-3 keys with idle bound 1-2, clean-up sweeps and "
